@@ -44,7 +44,17 @@ def c04(rep, tier):
     mt = sk.match_fn
     rep.analysed(mt)
     g = M.cfg(mt)
-    pushes = [ev for ev in g.calls() if is_call(ev.e, '::push_back') and member_path(strip_casts(ev.e['obj']))[1][-1:] == ['errors']]
+    def is_err_push(e):
+        return is_call(e, '::push_back') and e.get('obj') is not None and member_path(strip_casts(e['obj']))[1][-1:] == ['errors']
+    # helpers of the parse state that record an error on every path (report_unexpected(...))
+    recorders = set()
+    for f2 in pf.functions:
+        if f2.get('body') is None or not f2['q'].startswith('ParseState::') or f2 is mt:
+            continue
+        g2 = M.cfg(f2)
+        if any(is_err_push(ev.e) and g2.on_all_paths(ev) for ev in g2.calls()):
+            recorders.add(f2['q'])
+    pushes = [ev for ev in g.calls() if is_err_push(ev.e) or (ev.e.get('callee') in recorders)]
     tparam = mt['params'][0]
 
     def mismatch(c):
@@ -57,7 +67,8 @@ def c04(rep, tier):
     if okb:
         # on the mismatch path the push happens on every path (not nested further)
         skips = [ev for ev in g.events if (ev.e.get('k') == 'un' and ev.e['op'] == '++') or
-                 (ev.e.get('k') == 'call' and ev.e.get('callee_in_repo') and (ev.e.get('callee') or '').startswith('ParseState::'))]
+                 (ev.e.get('k') == 'call' and ev.e.get('callee_in_repo') and (ev.e.get('callee') or '').startswith('ParseState::') and
+                  ev.e.get('callee') not in recorders and not ev.e.get('callee').endswith(('::lookahead', '::at_eof')))]
         okb = all(g.dominates(pushes[0], s) or not (guarded(g, s, mismatch, True) or guarded(g, s, matches, False)) for s in skips)
     B.check(okb, 'ParseState::match: mismatch', 'errors.push_back(...) under lookahead() != t, before skipping', 'a token mismatch is not recorded as an error',
             'Compiler/src/parse.cpp:%d' % mt['loc'][1])
@@ -122,7 +133,8 @@ def c04(rep, tier):
             'a call with the wrong number of arguments is not rejected', 'Compiler/src/gen.cpp:%d' % dv['loc'][1])
     pop = m.fn('GenState::popSymbols')
     okm = False
-    for st in walk_stmts(pop['body']):
+    from .genrules import unconditional_callees
+    for st in [x for fb in unconditional_callees(m, pop) for x in walk_stmts(fb['body'])]:
         if st['k'] == 'rangefor' and field_chain(st['range'])[1][-1:] == ['marks']:
             for c in [x for x in walk_stmts(st['body']) if x['k'] == 'if']:
                 txt = strip_casts(c['c'])
